@@ -239,6 +239,9 @@ def _str_escape(s: str) -> str:
             c = r'\v'
         elif c == "\\": 
             c = r'\\'
+        elif c < ' ' or c == '\x7f':
+            # Other control characters would be dropped or altered when the page is written.
+            c = '\\x%02x' % ord(c)
         return c
 
     # Escape it
